@@ -3,6 +3,8 @@ Implements the PSLQ algorithm for integer relation detection,
 and derivative algorithms for constant recognition.
 """
 
+import re
+
 from .libmp.backend import xrange
 from .libmp import int_types, sqrt_fixed
 
@@ -477,6 +479,9 @@ def _operand(s, power=False):
         prev = ch
     return s
 
+# integer literals of a formula (not the digits of a name or of a decimal)
+_int_literals = re.compile(r'(?<![\w.])(\d+)(?![\w.])')
+
 def pslqstring(r, constants):
     q = r[0]
     r = r[1:]
@@ -785,10 +790,30 @@ def identify(ctx, x, constants=[], tol=None, maxcoeff=1000, full=False,
     """
 
     solutions = []
+    names = {}
+    if isinstance(constants, dict):
+        names.update(constants)
 
     def addsolution(s):
+        # The relation holds for the transformed value; the formula has
+        # to give back x (it does not next to a double root of the
+        # quadratic, or where the inverse transformation is
+        # ill-conditioned, e.g. 1/log(y) for y next to 1)
+        if 'mpf' not in names:
+            for name in dir(ctx):
+                names.setdefault(name, getattr(ctx, name))
+        try:
+            v = eval(_int_literals.sub(r'mpf(\1)', s), names)
+            if not abs(v - x) <= 100*tol*max(1, abs(x)):
+                return False
+        except (ArithmeticError, ValueError):
+            return False
+        except (NameError, SyntaxError, TypeError):
+            # a constant given under a name that cannot be evaluated
+            pass
         if verbose: print("Found: ", s)
         solutions.append(s)
+        return True
 
     x = ctx.mpf(x)
 
@@ -852,8 +877,8 @@ def identify(ctx, x, constants=[], tol=None, maxcoeff=1000, full=False,
                 else:
                     s = ftn.replace('$y', s).replace('$c**',
                         _operand(cn, True) + '**').replace('$c', cn)
-                addsolution(s)
-                if not full: return solutions[0]
+                if addsolution(s) and not full:
+                    return solutions[0]
 
             if verbose:
                 print(".")
@@ -870,8 +895,8 @@ def identify(ctx, x, constants=[], tol=None, maxcoeff=1000, full=False,
         logs = [(ctx.ln(i),str(i)) for i in ilogs] + logs
         r = ctx.pslq([ctx.ln(x)] + [a[0] for a in logs], tol, M)
         if r is not None and max(abs(uw) for uw in r) <= M and r[0]:
-            addsolution(prodstring(r, logs))
-            if not full: return solutions[0]
+            if addsolution(prodstring(r, logs)) and not full:
+                return solutions[0]
 
     if full:
         return sorted(solutions, key=len)
